@@ -33,6 +33,10 @@ use trusttunnel::verif;
 use ttv::tunnel_env::*;
 use ttv::*;
 
+#[path = "../h3client.rs"]
+#[allow(dead_code)]
+mod h3client;
+
 // ------------------------------------------------------------------------------------------
 // TLS client pieces
 
@@ -108,6 +112,8 @@ struct Story {
     rules: Option<String>,
     accept_start: bool,
     accept_end: Option<String>,
+    /// the connection is a QUIC connection that on_new_quic_connection was called for
+    quic: bool,
     done: bool,
 }
 
@@ -133,10 +139,10 @@ impl Pump {
             let Ok(v) = serde_json::from_str::<Value>(&l) else { continue };
             let ev = v["ev"].as_str().unwrap_or("");
             let id = v["id"].as_str().unwrap_or("").to_string();
-            if ev == "Accepted" {
+            if ev == "Accepted" || ev == "QuicEstablished" {
                 let peer = v["peer"].as_str().unwrap_or("").to_string();
                 g.peer_of_id.insert(id.clone(), peer.clone());
-                g.by_peer.insert(peer, Story { id, ..Default::default() });
+                g.by_peer.insert(peer, Story { id, quic: ev == "QuicEstablished", ..Default::default() });
                 continue;
             }
             let Some(peer) = g.peer_of_id.get(&id).cloned() else { continue };
@@ -145,7 +151,7 @@ impl Pump {
                 "RulesEval" => s.rules = v["verdict"].as_str().map(|x| x.to_string()),
                 "TlsAcceptStart" => s.accept_start = true,
                 "TlsAcceptEnd" => s.accept_end = v["res"].as_str().map(|x| x.to_string()),
-                "ConnDone" => s.done = true,
+                "ConnDone" | "QuicConnDone" => s.done = true,
                 _ => {}
             }
         }
@@ -157,7 +163,7 @@ impl Pump {
         let mut g = self.st.lock().unwrap();
         loop {
             if let Some(s) = g.by_peer.get(peer) {
-                if s.done {
+                if s.done || (s.quic && t0.elapsed() >= Duration::from_millis(150)) {
                     return Some(s.clone());
                 }
             }
@@ -178,6 +184,11 @@ impl Pump {
 /// the observable classes of the end of a connection
 fn observed_conn(s: &Option<Story>) -> &'static str {
     let Some(s) = s else { return "not-accepted" };
+    if s.quic {
+        // on_new_quic_connection was entered: the handshake is complete; when the task ends after the
+        // client's CONNECTION_CLOSE is quiche's business (draining), not waited for
+        return if s.rules.as_deref() == Some("deny") { "denied" } else { "established" };
+    }
     if !s.done {
         return "not-done";
     }
@@ -231,6 +242,8 @@ struct Mat {
     v: Value,
     src_ip: String,
     sni: Option<String>,
+    /// the name without the credentials label: what the client names in Host / :authority
+    host: String,
     alpn: Vec<String>,
     /// header fields as (name as spelled, value)
     headers: Vec<(String, String)>,
@@ -273,6 +286,7 @@ fn materialise(idx: usize, v: &Value, seed: u64) -> Mat {
         } else { l.to_string() }
     }).collect();
     let sni = if labels.is_empty() { None } else { Some(labels.join(".")) };
+    let host = s["sni"].as_array().unwrap().iter().filter_map(|l| l.as_str()).filter(|l| *l != "@creds").collect::<Vec<_>>().join(".");
     let alpn: Vec<String> = s["alpn"].as_array().unwrap().iter().map(|a| a.as_str().unwrap().to_string()).collect();
     // the fields
     let hs = s["hs"].as_array().cloned().unwrap_or_default();
@@ -334,12 +348,17 @@ fn materialise(idx: usize, v: &Value, seed: u64) -> Mat {
         };
         headers.push((spell(name, case), value));
     }
-    Mat { idx, v: v.clone(), src_ip, sni, alpn, headers, clients, plants }
+    Mat { idx, v: v.clone(), src_ip, sni, host, alpn, headers, clients, plants }
 }
 
 fn target_of(kind: &str, dest_port: u16, origin_port: u16) -> (&'static str, String) {
     match kind {
         "getOrigin" => ("GET", "/index.html".to_string()),
+        "rpGet" => ("GET", "/rp/hello".to_string()),
+        "rpGetClose" => ("GET", "/rp/close".to_string()),
+        "speedGet" => ("GET", "/speed/1mb.bin".to_string()),
+        "speedBad" => ("GET", "/speed/nothing".to_string()),
+        "speedUpload" => ("POST", "/speed/upload.html".to_string()),
         "check" => ("CONNECT", "_check".to_string()),
         "connect" => ("CONNECT", format!("127.0.0.1:{}", dest_port)),
         "connectRefused" => ("CONNECT", "127.0.0.1:1".to_string()),
@@ -360,11 +379,24 @@ fn h1_bytes(kind: &str, m: &Mat, dest_port: u16, origin_port: u16) -> Vec<u8> {
         return v;
     }
     v.extend_from_slice(format!("{} {} HTTP/1.1\r\n", method, target).as_bytes());
-    let host = if kind == "getOrigin" { m.sni.clone().unwrap_or_default() } else { target.strip_prefix("http://").map(|r| r.split('/').next().unwrap_or("").to_string()).unwrap_or(target.clone()) };
+    let host = if target.starts_with('/') { m.host.clone() } else { target.strip_prefix("http://").map(|r| r.split('/').next().unwrap_or("").to_string()).unwrap_or(target.clone()) };
     v.extend_from_slice(format!("Host: {}\r\nUser-Agent: verif-harness\r\n", host).as_bytes());
     for (n, val) in &m.headers { v.extend_from_slice(format!("{}: {}\r\n", n, val).as_bytes()); }
+    if kind == "speedUpload" { v.extend_from_slice(format!("Content-Length: {}\r\n", UPLOAD_DECLARED).as_bytes()); }
     v.extend_from_slice(b"\r\n");
+    if kind == "speedUpload" { v.extend_from_slice(&[b'u'; UPLOAD_SENT]); }
     v
+}
+
+/// the upload announces more than the client sends before it ends its side
+const UPLOAD_DECLARED: usize = 4096;
+const UPLOAD_SENT: usize = 100;
+
+/// authority-less paths over HTTP/2 and HTTP/3 need an authority: the name of the connection for the
+/// service hosts' own kind, a closed loopback port for the kinds that may stay on the tunnel channel
+fn absolute_target(kind: &str, m: &Mat, target: String) -> String {
+    if !target.starts_with('/') { return target; }
+    if kind == "getOrigin" { format!("https://{}{}", m.host, target) } else { format!("http://127.0.0.1:1{}", target) }
 }
 
 // ------------------------------------------------------------------------------------------
@@ -428,6 +460,8 @@ fn blocking_client(m: &Mat, port: u16, dest_port: u16, origin_port: u16, hs_time
         let _ = conn.complete_io(&mut sock);
         return seen;
     }
+    // a failed service answers nothing: do not wait long for it
+    let _ = sock.set_read_timeout(Some(Duration::from_millis(if m.v["statuses"].as_array().map(|a| a.iter().any(|x| x == 0)).unwrap_or(false) { 300 } else { 5000 })));
     let mut tls = rustls::Stream::new(&mut conn, &mut sock);
     if let Err(e) = tls.write_all(&h1_bytes(kind, m, dest_port, origin_port)) { seen.note = format!("write: {}", e); return seen; }
     let mut buf = Vec::new();
@@ -467,14 +501,17 @@ fn h2_client(rt: &tokio::runtime::Runtime, m: &Mat, port: u16, dest_port: u16, o
             Err(_) => { seen.note = "h2: no answer".into(); return seen; }
         };
         let ct = tokio::spawn(async move { let _ = conn.await; });
-        let (method, mut target) = target_of(&kind, dest_port, origin_port);
-        if kind == "getOrigin" { target = format!("https://{}{}", m.sni.clone().unwrap_or_default(), target); }
+        let (method, target) = target_of(&kind, dest_port, origin_port);
+        let target = absolute_target(&kind, &m, target);
         let mut b = http::Request::builder().method(method).uri(target.as_str()).header("user-agent", "verif-harness");
         for (n, v) in &m.headers { b = b.header(n.as_str(), v.as_str()); }
+        if kind == "speedUpload" { b = b.header("content-length", UPLOAD_DECLARED.to_string()); }
+        // (the h2 client refuses to end a body before its announced length: the early end is a reset there)
         let outcome: Result<u16, String> = async {
             let r = b.body(()).map_err(|e| format!("request build: {}", e))?;
             tokio::time::timeout(Duration::from_secs(5), std::future::poll_fn(|cx| send.poll_ready(cx))).await.map_err(|_| "not ready".to_string())?.map_err(|e| e.to_string())?;
-            let (resp, mut stream) = send.send_request(r, method != "CONNECT").map_err(|e| e.to_string())?;
+            let (resp, mut stream) = send.send_request(r, method != "CONNECT" && kind != "speedUpload").map_err(|e| e.to_string())?;
+            if kind == "speedUpload" { let _ = stream.send_data(bytes::Bytes::from(vec![b'u'; UPLOAD_SENT]), true); }
             let resp = tokio::time::timeout(Duration::from_secs(8), resp).await.map_err(|_| "no response".to_string())?.map_err(|e| e.to_string())?;
             let st = resp.status().as_u16();
             if method == "CONNECT" && st == 200 {
@@ -489,6 +526,44 @@ fn h2_client(rt: &tokio::runtime::Runtime, m: &Mat, port: u16, dest_port: u16, o
         let _ = ct.await;
         seen
     })
+}
+
+fn h3_client(m: &Mat, port: u16, dest_port: u16, origin_port: u16) -> Seen {
+    use h3client::*;
+    let mut seen = Seen::default();
+    let kind = m.v["s"]["kind"].as_str().unwrap_or("none");
+    let src: std::net::IpAddr = m.src_ip.parse().unwrap();
+    let alpn: Vec<&[u8]> = m.alpn.iter().map(|a| a.as_bytes()).collect();
+    let mut c = match H3Conn::connect(SocketAddr::from(([127, 0, 0, 1], port)), &ClientOpts { src_ip: src, sni: m.sni.as_deref(), alpn: &alpn, handshake_budget: Duration::from_secs(6), ..Default::default() }) {
+        Ok(c) => c,
+        Err(e) => { seen.note = format!("quic connect: {:?}", e); seen.closed_by_peer = true; return seen; }
+    };
+    if kind != "none" {
+        let (method, target) = target_of(kind, dest_port, origin_port);
+        let target = absolute_target(kind, m, target);
+        let declared = UPLOAD_DECLARED.to_string();
+        let mut extra: Vec<(&str, &[u8])> = vec![("user-agent", b"verif-harness")];
+        let lower: Vec<(String, &String)> = m.headers.iter().map(|(n, v)| (n.to_ascii_lowercase(), v)).collect();
+        for (n, v) in &lower { extra.push((n.as_str(), v.as_bytes())); }
+        if kind == "speedUpload" { extra.push(("content-length", declared.as_bytes())); }
+        let has_body = method == "CONNECT" || kind == "speedUpload";
+        match c.request(&request_headers(method, &target, &extra), !has_body) {
+            Ok(sid) => {
+                if kind == "speedUpload" { let _ = c.send_data(sid, &[b'u'; UPLOAD_SENT], true, Duration::from_secs(2)); }
+                // a failed service resets the stream: the wait ends with it, not with the budget
+                c.run_until(Duration::from_millis(4000), |c| c.streams.get(&sid).map(|s| !s.heads.is_empty() || s.ended()).unwrap_or(false));
+                seen.status = c.stream(sid).status(0);
+                if method == "CONNECT" && seen.status == 200 { let _ = c.send_data(sid, b"hello through the tunnel", true, Duration::from_secs(1)); c.linger(Duration::from_millis(20)); }
+            }
+            Err(e) => seen.note = e,
+        }
+    } else {
+        c.linger(Duration::from_millis(50));
+    }
+    seen.closed_by_peer = c.closed_by_peer();
+    c.close();
+    c.linger(Duration::from_millis(10));
+    seen
 }
 
 // ------------------------------------------------------------------------------------------
@@ -526,6 +601,11 @@ fn main() {
             let mut c = c; let mut got = Vec::new(); let mut b = [0u8; 1024];
             let _ = c.set_read_timeout(Some(Duration::from_secs(2)));
             while !got.windows(4).any(|w| w == b"\r\n\r\n") { match c.read(&mut b) { Ok(0) | Err(_) => break, Ok(n) => got.extend_from_slice(&b[..n]) } }
+            if got.windows(6).any(|w| w == b"/close") {
+                // the origin dies in the middle of its response head
+                let _ = c.write_all(b"HTTP/1.1 200 OK\r\nContent-Le");
+                return;
+            }
             let _ = c.write_all(b"HTTP/1.1 200 OK\r\nContent-Length: 2\r\nConnection: close\r\n\r\nok");
         });
     });
@@ -556,9 +636,13 @@ fn main() {
                 .rules_engine(RulesEngine::from_config(RulesConfig { rule: vec![Rule { cidr: Some("127.200.0.0/16".into()), client_random_prefix: None, action: RuleAction::Deny }] }))
                 .tls_handshake_timeout(hs_timeout);
             let rproxy: Vec<String> = cfg2["rproxy"].as_array().unwrap().iter().map(name_of).collect();
-            let settings = if rproxy.is_empty() { settings } else {
-                settings.reverse_proxy(ReverseProxySettings::builder().server_address(format!("127.0.0.1:{}", origin_port)).unwrap().path_mask("/rp".into()).build().expect("reverse proxy"))
+            // the reverse proxy's origin: the harness's origin server, or a port nobody listens on
+            let settings = match cfg2["origin"].as_str() {
+                Some("up") => settings.reverse_proxy(ReverseProxySettings::builder().server_address(format!("127.0.0.1:{}", origin_port)).unwrap().path_mask("/rp".into()).build().expect("reverse proxy")),
+                Some("down") => settings.reverse_proxy(ReverseProxySettings::builder().server_address("127.0.0.1:1").unwrap().path_mask("/rp".into()).build().expect("reverse proxy")),
+                _ => settings,
             };
+            let settings = settings.speedtest_enable(cfg2["speedtest"].as_bool().unwrap_or(false));
             let settings = settings.build().expect("settings");
             let mains: Vec<String> = cfg2["main"].as_array().unwrap().iter().map(name_of).collect();
             let allowed: Vec<String> = cfg2["allowed"].as_array().unwrap().iter().map(name_of).collect();
@@ -578,7 +662,8 @@ fn main() {
         // 0: waits for a timeout of the endpoint; 1: the client itself lingers (no request, broken handshake); 2: the rest
         let pace = |m: &Mat| -> u8 {
             if matches!(m.v["conn"].as_str(), Some("hello-timeout") | Some("hs-timeout")) { 0 }
-            else if m.v["s"]["kind"] == "none" || m.v["s"]["hello"] != "complete" { 1 } else { 2 }
+            else if m.v["s"]["kind"] == "none" || m.v["s"]["hello"] != "complete" || m.v["s"]["via"] == "quic"
+                || (m.v["conn"] == "established" && m.v["statuses"].as_array().map(|a| a.iter().any(|x| x == 0)).unwrap_or(false)) { 1 } else { 2 }
         };
         let mut order: Vec<Mat> = mine.clone();
         order.sort_by_key(|m| (pace(m), m.idx));
@@ -596,16 +681,18 @@ fn main() {
                 let (pump, results) = (pump.clone(), results.clone());
                 std::thread::spawn(move || {
                     let s = &m.v["s"];
+                    let st0 = Instant::now();
                     // the protocol the model says `select` negotiates
                     let use_h2 = s["hello"] == "complete" && m.v["proto"] == "h2" && s["kind"] != "badSyntax";
-                    let seen = match catch(|| if use_h2 {
+                    let seen = match catch(|| if s["via"] == "quic" { h3_client(&m, port, dest_port, origin_port) } else if use_h2 {
                         let rt = tokio::runtime::Builder::new_current_thread().enable_all().build().unwrap();
                         h2_client(&rt, &m, port, dest_port, origin_port)
                     } else { blocking_client(&m, port, dest_port, origin_port, hs_timeout) }) {
                         Ok(s) => s,
                         Err(e) => Seen { note: format!("client panicked: {}", e), ..Default::default() },
                     };
-                    let story = pump.wait_done(&m.src_ip, hs_timeout * 3 + Duration::from_secs(5));
+                    if std::env::var_os("VERIF_TIMING").is_some() && st0.elapsed() > Duration::from_millis(600) { eprintln!("slow client {} ms: {} status {} {}", st0.elapsed().as_millis(), s, seen.status, seen.note); }
+                    let story = pump.wait_done(&m.src_ip, if s["via"] == "quic" { Duration::from_secs(2) } else { hs_timeout * 3 + Duration::from_secs(5) });
                     results.lock().unwrap().push((m.idx, observed_conn(&story).to_string(), seen.status, seen.note));
                 })
             }).collect();
